@@ -275,7 +275,7 @@ func (g *e3gen) stream() []byte {
 			case 2: // kind change inside a packet
 				g.desc = append(g.desc, "kind-change")
 				b = refAppendFrame(b, RFrame{Stream: sid, Msg: mid, Kind: kind, Data: data})
-				b = refAppendFrame(b, RFrame{Stream: sid, Msg: mid, Kind: kind ^ 1, Done: true, Data: data})
+				b = refAppendFrame(b, RFrame{Stream: sid, Msg: mid, Kind: kind ^ 1, Done: true, Ctl: g.chance(0.5), Data: data})
 				mid++
 				continue
 			case 3: // over-long varint
@@ -424,6 +424,9 @@ func runE3(spec RunSpec, ch *Choices) *RunResult {
 	g := &e3gen{ch: ch}
 	g.max = []int{1, 10, 100, 1000, 4096, 65536}[ch.Weighted("gen", []int{1, 2, 3, 3, 2, 1})]
 	var data []byte
+	if spec.Prop == "C18" && ch.Bool("gen", 0.25) {
+		return runE3NewToOld(spec, ch, res, d)
+	}
 	fromOld := spec.Prop == "C18" || ch.Bool("gen", 0.15)
 	if fromOld {
 		data = g.oldWriterStream()
@@ -567,4 +570,66 @@ func (g *e3gen) oldWriterStream() []byte {
 	}
 	_ = w.Flush(context.Background())
 	return buf.Bytes()
+}
+
+// runE3NewToOld (C18 a, large messages): packets are cut into frames the way the
+// current stream layer does it (drpcwire.SplitData with the configured split size,
+// default included) and encoded with the current AppendFrame; the released
+// v0.0.17 reader has to decode exactly those packets. (The rpc engine covers the
+// same direction for everything it emits, but its messages stay below 200 KB.)
+func runE3NewToOld(spec RunSpec, ch *Choices, res *RunResult, d *Director) *RunResult {
+	split := []int{0, 0, 1000, 65536, 200000}[ch.Pick("gen", 5)]
+	var b []byte
+	var want []RPacket
+	n := 1 + ch.Pick("gen", 3)
+	mid := uint64(1)
+	for i := 0; i < n; i++ {
+		size := []int{0, 1, 65535, 65536, 65537, 200000, 1<<20 - 8, 1 << 20, 1<<20 + 5000, 3 << 20}[ch.Pick("gen", 10)]
+		data := make([]byte, size)
+		for j := 0; j < len(data); j += 97 {
+			data[j] = byte(j + i)
+		}
+		want = append(want, RPacket{Stream: 1, Msg: mid, Kind: kMessage, Data: data})
+		rest := data
+		for {
+			var part []byte
+			part, rest = drpcwire.SplitData(rest, split)
+			done := len(rest) == 0
+			b = drpcwire.AppendFrame(b, drpcwire.Frame{Data: part, ID: drpcwire.ID{Stream: 1, Message: mid}, Kind: drpcwire.KindMessage, Done: done})
+			if done {
+				break
+			}
+		}
+		mid++
+	}
+	d.Logf("RUN seed=%d index=%d engine=reader-chunk mode=new-writer-to-v0.0.17-reader split=%d packets=%d bytes=%d", spec.Seed, spec.Index, split, n, len(b))
+	res.Desc = map[string]any{"mode": "current SplitData/AppendFrame -> v0.0.17 reader", "split": split, "packets": n, "bytes": len(b)}
+	viol := func(sig, detail string) {
+		d.Logf("  VIOL oldreader %s", sig)
+		res.Viol = append(res.Viol, Violation{Prop: spec.Prop, Oracle: "oldreader", Sig: sig, Detail: detail})
+	}
+	rd := oldwire.NewReader(bytes.NewReader(b))
+	for i := 0; ; i++ {
+		pkt, err := rd.ReadPacket()
+		if err == io.EOF {
+			if i != len(want) {
+				viol("released v0.0.17 reader decodes fewer packets than were written", fmt.Sprintf("%d of %d", i, len(want)))
+			}
+			break
+		}
+		if err != nil {
+			viol("released v0.0.17 reader rejects frames the current stream layer cuts with its split size: "+stripNums(trunc(err.Error(), 60)), fmt.Sprintf("split=%d packet %d: %v", split, i, err))
+			break
+		}
+		if i >= len(want) || pkt.ID.Message != want[i].Msg || uint8(pkt.Kind) != kMessage || !bytes.Equal(pkt.Data, want[i].Data) {
+			viol("released v0.0.17 reader decodes a different packet than was written", fmt.Sprintf("packet %d", i))
+			break
+		}
+	}
+	res.Hash = d.LogHash()
+	res.Steps = 1
+	res.Lines = d.Lines
+	res.Draws = ch.Draws
+	res.Nontrivial = true
+	return res
 }
